@@ -778,6 +778,7 @@ var entTypes = []string{"Query", "O1", "O2", "O3", "O4"}
 
 func Gen(t *rapid.T, lifecycle bool) Case {
 	s := world.GenSpec(t)
+	s.Intern = rapid.Bool().Draw(t, "intern")
 	c := Case{Spec: s, Lifecycle: lifecycle, Sched: rapid.SampledFrom(sched.Names).Draw(t, "sched")}
 	c.Modes = world.Modes{}
 	for _, o := range s.Objects {
